@@ -199,7 +199,7 @@ func checkC06(c *Ctx) {
 			}
 			nret++
 			site := fmt.Sprintf("%s return#%d", fnKey(fn), nret)
-			v := ret.Results[0]
+			v := returnedValues(ret)[0]
 			if isNilConst(v) {
 				c.OK("R2", site, ret.Pos(), "nil")
 				return
@@ -263,7 +263,7 @@ func checkC06(c *Ctx) {
 						if !ok {
 							return
 						}
-						rv := ret.Results[0]
+						rv := returnedValues(ret)[0]
 						if isNilConst(rv) {
 							return
 						}
@@ -426,7 +426,7 @@ func checkC06(c *Ctx) {
 								if isModFn(g) && g.Blocks != nil {
 									eachInstr(g, func(_ *ssa.BasicBlock, _ int, y ssa.Instruction) {
 										if r, ok := y.(*ssa.Return); ok {
-											for _, rv := range r.Results {
+											for _, rv := range returnedValues(r) {
 												walk(rv, d-1)
 											}
 										}
@@ -667,7 +667,7 @@ func checkC06(c *Ctx) {
 			eachInstr(g, func(_ *ssa.BasicBlock, _ int, in ssa.Instruction) {
 				if ret, isRet := in.(*ssa.Return); isRet && len(ret.Results) == 1 {
 					nr++
-					if !built(ret.Results[0], depth+1) {
+					if !built(returnedValues(ret)[0], depth+1) {
 						ok = false
 					}
 				}
@@ -755,7 +755,7 @@ func checkC06(c *Ctx) {
 				return
 			}
 			n++
-			if !built(ret.Results[0], 0) {
+			if !built(returnedValues(ret)[0], 0) {
 				okAll = false
 			}
 		})
@@ -800,7 +800,7 @@ func randSourceNonNegative(p *Prog, g *ssa.Global) bool {
 		if !isRet || len(ret.Results) != 1 {
 			return false
 		}
-		if call, isCall := ret.Results[0].(*ssa.Call); isCall && isCallTo(call, "math/rand.Int", "math/rand.Intn", "math/rand.Int63", "math/rand.Int31") {
+		if call, isCall := returnedValues(ret)[0].(*ssa.Call); isCall && isCallTo(call, "math/rand.Int", "math/rand.Intn", "math/rand.Int63", "math/rand.Int31") {
 			ok = true
 		}
 	}
@@ -878,7 +878,7 @@ func checkLeastConn(c *Ctx, fn *ssa.Function, hosts *ssa.Parameter) {
 			c.Undecided("R4", site, cmp.Pos(), "no return after the comparison")
 			continue
 		}
-		rv := ret.Results[0]
+		rv := returnedValues(ret)[0]
 		if ph, ok := rv.(*ssa.Phi); ok {
 			// pick the edge coming from the taken branch
 			for k, pred := range ph.Block().Preds {
